@@ -44,7 +44,11 @@ func (x *FnCtx) call(fr *Frame, st *State, in ssa.Value, c *ssa.CallCommon) Valu
 		}
 		if fr.ctr != nil && fr.depth == 0 {
 			if k, ok := fr.ctr.Use[strings.TrimPrefix(site, fr.prefix)]; ok {
-				if ctr := x.eng.specs.Contracts[k]; ctr != nil {
+				ctr := x.eng.specs.Contracts[k]
+				if ctr == nil {
+					ctr = x.eng.specs.Contracts[canonKey(pkgOf(fr.fn).Path(), k)]
+				}
+				if ctr != nil {
 					x.usedAssumed["call site "+site+" of "+shortFn(x.key)+": "+k] = true
 					return x.applyContract(fr, st, ctr, nil, c.Signature(), c.Value.Type(), full, site, resT)
 				}
@@ -141,7 +145,11 @@ func (x *FnCtx) callFunction(fr *Frame, st *State, callee *ssa.Function, args []
 	}
 	if fr.ctr != nil && fr.depth == 0 {
 		if k, ok := fr.ctr.Use[strings.TrimPrefix(site, fr.prefix)]; ok {
-			if ctr := x.eng.specs.Contracts[k]; ctr != nil {
+			ctr := x.eng.specs.Contracts[k]
+			if ctr == nil {
+				ctr = x.eng.specs.Contracts[canonKey(pkgOf(fr.fn).Path(), k)]
+			}
+			if ctr != nil {
 				x.usedAssumed["call site "+site+" of "+shortFn(x.key)+": "+k] = true
 				var recvT types.Type
 				if callee.Signature.Recv() != nil {
